@@ -202,8 +202,15 @@ const preamble = `(set-option :produce-models true)
 (declare-fun sub-base (Int) Int)
 (declare-fun sub-idx (Int) Int)
 (declare-fun chancap (Int) Int)
+(declare-fun fnid (Int) Int)
 (define-fun nil-iface () Iface (mk-iface 0 0))
 (define-fun nil-slice () Slice (mk-slice 0 0 0 0))
 `
 
 const subrefAxiom = "(assert (forall ((r Int) (k Int)) (! (and (= (sub-base (subref r k)) r) (= (sub-idx (subref r k)) k) (< (subref r k) 0)) :pattern ((subref r k)))))\n"
+
+// closureBindFn names the uninterpreted function "i-th captured value of a closure" for bindings of the given sort.
+func closureBindFn(i int, sort string) string {
+	r := strings.NewReplacer("(", "_", ")", "_", " ", "_", "$", "_", "|", "", "/", "_", ".", "_", "*", "p")
+	return fmt.Sprintf("closurebind%d_%s", i, r.Replace(sort))
+}
